@@ -188,19 +188,25 @@ func stressLoops(c *Ctx) {
 				}
 			}(g)
 		}
-		// samples of the observable (height, view): never decreasing lexicographically
-		go func() {
-			var lh, lv uint64
-			for ctx.Err() == nil {
-				hv := ml.State().HeightView()
-				h, v := uint64(hv.Height()), uint64(hv.View())
-				if h < lh || (h == lh && v < lv) {
-					c.Violation("C13", "state-decreased", fmt.Sprintf("(height,view) sampled (%d,%d) after (%d,%d)", h, v, lh, lv), "stress")
+		// samples of the observable (height, view): never decreasing lexicographically; one paced observer
+		// and three that read back to back (a torn snapshot is only visible for an instant)
+		for k := 0; k < 4; k++ {
+			pace := k == 0
+			go func() {
+				var lh, lv uint64
+				for ctx.Err() == nil {
+					hv := ml.State().HeightView()
+					h, v := uint64(hv.Height()), uint64(hv.View())
+					if h < lh || (h == lh && v < lv) {
+						c.Violation("C13", "state-decreased", fmt.Sprintf("(height,view) sampled (%d,%d) after (%d,%d)", h, v, lh, lv), "stress")
+					}
+					lh, lv = h, v
+					if pace {
+						time.Sleep(20 * time.Microsecond)
+					}
 				}
-				lh, lv = h, v
-				time.Sleep(20 * time.Microsecond)
-			}
-		}()
+			}()
+		}
 		cancelEarly := r.Intn(2) == 0
 		if cancelEarly {
 			time.Sleep(time.Duration(r.Intn(3000)) * time.Microsecond)
